@@ -41,6 +41,19 @@ CLAIMED = {
              'unmodelled); other directive kinds are neutralised in shipped files for this check.',
         technique='Lean 4 proof on the specification + executable model and spec tied to directive.Run by differential runs',
         ref='8/C03'),
+    'C11': dict(
+        text='Lean 4 theorems: on strings over the regenerated sort alphabet compare() is antisymmetric, transitive and equal '
+             'only on identical strings; the lexicographic comparison of the fields each Compare reads is a total preorder with '
+             'identity on canonical key lists (all kinds except file/include special cases); sorted permutations are unique, so '
+             'sorting is idempotent and input-order independent there. Instance obligations (alphabets duplicate-free and lower '
+             'case, which kinds read every field) by decide on regenerated tables. Every Rule.Compare, compare(string) and '
+             'Rules.Sort is run against the model; antisymmetry, identity, transitivity, sort idempotence and permutation '
+             'invariance are searched on the real code outside the known classes, each of which has a proved witness.',
+        note='Trusted: Lean kernel; hand-written schema of per-kind compare orders tied by the differential run (sampling); '
+             'strings.ToLower modelled for ASCII; slices.SortFunc compared only on tie-free lists; file and include special '
+             'cases are covered by the search, not by the order theorem.',
+        technique='Lean 4 proof (order theory of compare, lexicographic lifting, sorted-permutation uniqueness) + regenerated tables + differential run',
+        ref='8/C11'),
 }
 
 REASON_TODO = 'check not built yet in this round; no claim is made (see DESIGN.md section 13)'
